@@ -21,7 +21,7 @@ import engine
 from engine import Op, set_mode
 
 PROP = "C19"
-QUICK_BOOST = 2
+QUICK_BOOST = 1
 LEAN_MODULES = ["IsoDT.Props.C19", "IsoDT.Props.C19b"]
 RULE = ("argument vectors built from valid date-times in every notation (ISO basic/extended, reduced, week, "
         "ordinal, the strptime-able notations), 0-3 offsets of either sign incl. -P... spellings and every "
@@ -668,5 +668,5 @@ def normalise(text):
 
 
 def ops():
-    # cli2ops.CliEvalOp() is re-registered once Model/Cli2 mirrors the repaired strptime fallback (F19)
-    return [CliOp()]
+    import cli2ops
+    return [CliOp(), cli2ops.CliEvalOp()]
